@@ -296,6 +296,12 @@ theorem no_exit0_without_output_partial (env : Env) (p : Program)
   · rw [h] at this; exact absurd this.1 (by simp)
   · rcases this.2 with h' | h' <;> simp_all
 
+/-- **no_exit0_without_output** (full since `fix: thriftgo exits non-zero after recovering from a
+panic`): `handlePanic` now leaves with a non-zero status — regenerated fact, re-checked on every run —
+so no run at all, whatever panics in the parser or the backend, exits 0 without its output. -/
+theorem no_exit0_without_output (env : Env) (p : Program) : (run cfg env p).outcome ≠ .exit0NoOutput :=
+  no_exit0_without_output_partial env p (Or.inl (by decide))
+
 /-! ## negative witnesses (the property is false there, on the model as on the code) -/
 
 private def nm (s : String) : Name := s.toList.map Char.toNat
